@@ -422,6 +422,11 @@ func (n *lazyNode) equal(o *lazyNode) bool {
 		return false
 	}
 
+	// The text null decodes into a nil *partialArray.
+	if n.ary == nil || o.ary == nil {
+		return n.ary == nil && o.ary == nil
+	}
+
 	if len(n.ary.nodes) != len(o.ary.nodes) {
 		return false
 	}
@@ -537,8 +542,19 @@ Loop:
 	return false
 }
 
+// isNullContainer reports whether the document has been replaced by a JSON
+// null, which leaves a nil *partialArray behind as the container.
+func isNullContainer(doc container) bool {
+	pa, ok := doc.(*partialArray)
+	return ok && pa == nil
+}
+
 func findObject(pd *container, path string, options *ApplyOptions) (container, string) {
 	doc := *pd
+
+	if isNullContainer(doc) {
+		return nil, ""
+	}
 
 	split := strings.Split(path, "/")
 
@@ -829,6 +845,10 @@ func (p Patch) add(doc *container, op Operation, options *ApplyOptions) error {
 // creating objects and arrays as needed.
 func ensurePathExists(pd *container, path string, options *ApplyOptions) error {
 	doc := *pd
+
+	if isNullContainer(doc) {
+		return nil
+	}
 
 	var err error
 	var arrIndex int
